@@ -51,12 +51,19 @@ CLAIMS = {
             "Trusted: Lean kernel; native_decide for templateOk/scanOk/sweepOk/formatPosOk/interleaveOk; hand model tied by correspondence incl. a malformed stream that validates the model's traps. Not modelled: stack/heap exhaustion.",
             'Lean 4 proof of trap-freedom of an instrumented model (symbolic + tier K/N) + differential run with overflow checks on'),
     "C11": ("proof",
-            "Lean 4: the selection fold returns an argmin of the ranking scores for every score list (C11_select_min), forced mask "
-            "overrides (C11_forced), candidates are masks 0..7 (MASKS table), PERCENT_SCORE = 10*k. Recorder hook: the 8 real "
-            "candidates are masks of one placed matrix, each ranking score equals the model's and the declarative Spec.Penalty of "
-            "that candidate, the emitted mask is a minimiser. Defect found and fixed (columns were scored on the unmasked transpose).",
-            "Partial: symbolic equivalence line/squares = declarative penalty not yet proved; checked per candidate.",
-            "Lean 4 fold invariant + declarative penalty in Lean evaluated on the recorded real candidates"),
+            "Lean 4: C11_documented (proved) — for every version, level and EVERY codeword sequence, with no mask forced the mask "
+            "place_on_matrix emits is one of the eight ISO masks and the DOCUMENTED penalty (Spec.Penalty.total, written "
+            "declaratively: 40 per 1011101 window and N-2 per run of N>=5 equal encoding-region modules along every row and "
+            "column, 3 per 2x2 block, 10 per 5% step of the dark ratio) of its candidate is minimal among the eight candidates over "
+            "the same placed codewords. Ingredients: C11_line (the single-pass scanner with its shift register and run counter = "
+            "windows + runs, for every line), squares = blocks (rolling buffer; uses that columns 0 and 1 carry equal labels: tier N "
+            "col01Ok), PERCENT_SCORE = 10*k (tier K), C11_score_is_documented, C11_select_min (fold returns an argmin for every "
+            "score list), C11_forced. Recorder hook: the 8 real candidates are masks of one placed matrix, each ranking score "
+            "equals the model's and Spec.Penalty of that candidate, the emitted mask is a minimiser and the emitted symbol carries "
+            "it. Defect found and fixed (columns were scored on the unmasked transpose).",
+            "Trusted: Lean kernel (+ propext, Classical.choice, Quot.sound); native_decide for templateOk/sweepOk/col01Ok; "
+            "hand model of score.rs / place_on_matrix tied by the recorder correspondence; Spec.Penalty as my reading of the crate's documented penalty.",
+            "Lean 4 symbolic proof (scanner simulation, fold invariants) + declarative penalty in Lean evaluated on the recorded real candidates"),
     "C15": ('proof',
             'Lean 4: C15_labels — for EVERY input and option combination for which the model builder returns a symbol, the label of every module is its ISO region (blank symbol labels = ISO regions for all 40 versions by templateOk; set / toggle / the format writer preserve labels), Data cells in scan order = ISO read-out sequence, count = 8*codewords + remainder (scanOk). Spec verdict on real symbols: module_type() of every module = Spec.Regions, for every version x level x mask.',
             'Trusted: Lean kernel; native_decide on templateOk/scanOk/sweepOk/formatPosOk; Spec.Regions as my reading of ISO 18004 6.3/Annex E.',
